@@ -227,6 +227,8 @@ func isRef(t types.Type) bool {
 }
 
 // isFresh: make, append onto nil/fresh, composite literal, nil, or any call result.
+func IsFresh(v ssa.Value) bool { return isFresh(v) }
+
 func isFresh(v ssa.Value) bool {
 	switch x := Unwrap(v).(type) {
 	case *ssa.MakeSlice, *ssa.MakeMap, *ssa.Alloc:
